@@ -147,6 +147,23 @@ class Case:
             if kind == "data_in":
                 origin.overlay.send_data(circuit.hop.address, circuit.circuit_id, dest, ("0.0.0.0", 0), b"d4:opene")
                 await asyncio.sleep(0.2)
+            warm = list(c.get("warm") or [0, 0])
+            if (warm[0] or warm[1]) and not fault and not nested and not te and not c.get("retiring"):
+                # a circuit with a history: `warm[1]` datagrams went out and `warm[0]` answers came back before the
+                # datagram that is measured (a ready circuit stays a ready circuit however much it has carried in
+                # either direction)
+                for i in range(max(warm[1], 1 if warm[0] and kind != "data_in" else 0)):
+                    origin.overlay.send_data(circuit.hop.address, circuit.circuit_id, dest, ("0.0.0.0", 0), b"d4:warme")
+                await asyncio.sleep(0.2)
+                trw = [t for t in loop.transports if t.local_addr[0] == "0.0.0.0" and not t.closed]
+                for i in range(warm[0]):
+                    if trw:
+                        trw[0].inject(b"d4:backe", outside)
+                await asyncio.sleep(0.3)
+                if warm[0] and len([g for g in got_raw if g[2] == b"d4:backe"]) != warm[0]:
+                    self.fail("I1", "inbound:history", f"{warm[0]} outside answers on a ready {hops}-hop circuit, the "
+                                                       f"originator received {len(got_raw)}")
+                got_raw.clear()
             seq0 = w.net.seq
             sent0 = {id(t): len(t.sent) for t in loop.transports}
             target_link = fault["link"] if fault else None
@@ -243,6 +260,8 @@ class Case:
                                               ("_retiring" if c.get("retiring") and kind == "data_in" and not fault else ""),
                                               size_class(size),
                                               "none" if not fault else fault["type"])
+            if (warm[0] or warm[1]) and not fault and not nested and not te and not c.get("retiring"):
+                info["cls"] += "/hist"
             info["nontrivial"] = (size >= 8 and not fault) or body_hit or bool(fault and fault["type"] == "inject")
             info["desc"] = (hops, kind, size_class(size), None if not fault else
                             (fault["type"], target_link, "body" if body_hit else state["hit"] and state["hit"][1]))
@@ -876,6 +895,8 @@ def _strategy():
         "stack": st.sampled_from([None, None, "v4", "dual", "dual"]),
         "dest": st.sampled_from([["5.5.5.5", 5555], ["2001:db8::5", 5555], ["5.6.7.8", 1]]),
         "resp": st.integers(0, 600),
+        "warm": st.one_of(st.just([0, 0]), st.sampled_from([[8, 1], [12, 2], [3, 1], [0, 9], [9, 9]]),
+                          st.lists(st.integers(0, 14), min_size=2, max_size=2)),
         "fault": fault,
     }).map(lambda c: {**c, "nodes": c["hops"] + 2 if c["fault"] and c["fault"]["type"] in ("splice", "swapcid")
                       else c["hops"] + 1})
